@@ -2,5 +2,6 @@ SPECIFICATION Spec
 CONSTANTS MaxN = 2
           WrapperConsumes = FALSE
           ReleaseWakesWaiter = TRUE
+          PauseCoversEncode = FALSE
 INVARIANT Export
 CHECK_DEADLOCK FALSE
